@@ -209,6 +209,7 @@ fn seq_families(tier: Tier, _seed: u64) -> Vec<Family<ExPlan>> {
             let (id, script) = &a[(i / 6) as usize];
             let k = i % 6;
             let mut plan = ExPlan::clean(*id, InParams::fixed(), frames_for(*id, script, (i % 200) as u8));
+            plan.wellformed = true;
             plan.mode = [Mode::Lockstep, Mode::Eager, Mode::Paced][(k % 3) as usize];
             plan.sched = sched_variant(k / 3);
             plan.tail = if k % 2 == 0 { rc::ACK.to_vec() } else { vec![0x06, 0x0f] };
@@ -274,6 +275,7 @@ fn seq_families(tier: Tier, _seed: u64) -> Vec<Family<ExPlan>> {
             fams.push(Family::new("terminal_stalls_at_every_byte_position", n, true, move |i, _| {
                 let (id, script, pos, gap) = &cases[i as usize];
                 let mut plan = ExPlan::clean(*id, InParams::fixed(), frames_for(*id, script, 3));
+                plan.wellformed = true;
                 plan.mode = Mode::Paced;
                 plan.paced_cuts = vec![*pos];
                 plan.paced_gaps_ms = vec![0, *gap];
@@ -310,6 +312,7 @@ pub fn random_plan(rng: &mut Rng, max_depth: usize) -> ExPlan {
         InParams::random(rng)
     };
     let mut plan = ExPlan::clean(id, input, frames_for(id, &script, rng.next_u64() as u8));
+    plan.wellformed = true;
     // a terminal may well send the same packet twice in a row (the same status, a blank print line):
     // each is a packet of its own - acknowledged, handed over
     if rng.pct(15) && plan.replies.len() > 1 {
